@@ -10,7 +10,7 @@
  * alarm.
  *
  *   gcc -O2 -pthread -o mine mine.c model.c && ./mine <task> <log2 candidates> <threads>   >> pinned/special.txt
- *   tasks: hashmid hashfin hmacin aead128 aead192 aead256 sivforge128 sivforge192 sivforge256 siv128 siv192 siv256 prng
+ *   tasks: hashmid hashfin hmacin pbkdf2 aead128 aead192 aead256 sivforge128 sivforge192 sivforge256 siv128 siv192 siv256 prng
  */
 #include "model.h"
 #include <pthread.h>
@@ -153,6 +153,41 @@ static void *worker(void *arg)
                 hex(h1, k16, 16); hex(h2, msg, 8);
                 snprintf(line, sizeof line, "hmacin %s %s inner-digest:%s", h1, h2, name);
                 emit(line);
+            }
+        }
+    } else if (!strcmp(task, "pbkdf2")) {
+        /* PBKDF2 block 1: at some iteration j (2..48) a word of the accumulator T = U_1 ^ .. ^ U_(j-1) equals the same word
+         * of U_j (the XOR result word is zero), or a word of U_j is 0 / ffffffff */
+        static const uint8_t pw[8] = {'p', 'a', 's', 's', 'w', 'o', 'r', 'd'};
+        uint8_t blk[64];
+        m_hash_t hi, ho;
+        memset(blk, 0x36, 64); for (i = 0; i < 8; ++i) blk[i] ^= pw[i];
+        m_hash_init(&hi); m_hash_update(&hi, blk, 64);
+        memset(blk, 0x5C, 64); for (i = 0; i < 8; ++i) blk[i] ^= pw[i];
+        m_hash_init(&ho); m_hash_update(&ho, blk, 64);
+        for (c = 0; c < per_thread; c += 47) {
+            uint8_t salt[24], U[32], T[32], in[32];
+            m_hash_t h;
+            int sl = snprintf((char *)salt, sizeof salt, "salt-%02x%08llx", tid, c / 47), j;
+            salt[sl] = 0; salt[sl + 1] = 0; salt[sl + 2] = 0; salt[sl + 3] = 1;
+            h = hi; m_hash_update(&h, salt, (size_t)sl + 4); m_hash_final(&h, in);
+            h = ho; m_hash_update(&h, in, 32); m_hash_final(&h, U);
+            memcpy(T, U, 32);
+            for (j = 2; j <= 48; ++j) {
+                int pat = -1, w;
+                h = hi; m_hash_update(&h, U, 32); m_hash_final(&h, in);
+                h = ho; m_hash_update(&h, in, 32); m_hash_final(&h, U);
+                for (w = 0; w < 8 && pat < 0; ++w) {
+                    if (ld(T + 4 * w) == ld(U + 4 * w)) { pat = w; snprintf(name, sizeof name, "T.w%d=U_j.w%d", w, w); }
+                    else if (ld(U + 4 * w) == 0) { pat = 8 + w; snprintf(name, sizeof name, "U_j.w%d=00000000", w); }
+                    else if (ld(U + 4 * w) == 0xFFFFFFFFu) { pat = 16 + w; snprintf(name, sizeof name, "U_j.w%d=ffffffff", w); }
+                }
+                if (pat >= 0 && take(pat)) {
+                    hex(h1, pw, 8); hex(h2, salt, (size_t)sl);
+                    snprintf(line, sizeof line, "pbkdf2 %s %s %d %s", h1, h2, j, name);
+                    emit(line);
+                }
+                for (w = 0; w < 32; ++w) T[w] ^= U[w];
             }
         }
     } else if (!strcmp(task, "prng")) {
